@@ -32,3 +32,76 @@ def F4(a: object = "A", b: object = "B", c: object = "C", d: object = "D", k: ob
     out = repr((a, b, c, d, k))
     _log(out)
     return out
+
+
+# ------------------------------------------------------------------ generic workflow ----------
+import json
+import typing as ty
+
+
+@python.define
+def Op(name: str, a: ty.Any = None, b: ty.Any = None, fail: ty.Any = ()) -> ty.Any:
+    """Generic node body: logs its execution, fails when `a` (or the pair) is listed in `fail`,
+    returns a nested rendering of what it received."""
+    _log(json.dumps([name, a, b], default=repr))
+    key = a if b is None else [a, b]
+    if fail is True or (isinstance(fail, (list, tuple)) and key in list(fail)):
+        raise RuntimeError(f"vt-fail {name} {key!r}")
+    return [name, a] if b is None else [name, a, b]
+
+
+def _wire(src, nodes, wfin):
+    kind = src[0]
+    if kind == "const":
+        return src[1]
+    if kind == "wf":
+        return wfin[src[1]]
+    if kind == "node":
+        return nodes[src[1]].out
+    raise ValueError(src)
+
+
+NOUT = 3
+
+
+@workflow.define(outputs=[f"o{i}" for i in range(NOUT)])
+def GenWf(spec: str, x: ty.Any = None, y: ty.Any = None):
+    """Workflow whose graph is spelled by the JSON `spec` (part of the hashed inputs).
+
+    spec = {"nodes": [{"name": n, "a": src, "b": src|absent, "fail": [...]|true|absent,
+                       "split": splitter-json|absent, "split_vals": {field: src}, "combine": [..]|absent,
+                       "wf": nested-spec|absent}],
+            "outs": [node names (<= NOUT)]}
+    src = ["const", v] | ["wf", "x"|"y"] | ["node", name]
+    """
+    from vt.ref.splitter import from_json
+    sp = json.loads(spec)
+    wfin = {"x": x, "y": y}
+    nodes = {}
+    for nd in sp["nodes"]:
+        name = nd["name"]
+        if "wf" in nd:
+            t = GenWf(spec=json.dumps(nd["wf"]))
+            plain = {k: _wire(nd[k], nodes, wfin) for k in ("x", "y") if k in nd}
+        else:
+            t = Op(name=name, fail=nd.get("fail", ()))
+            plain = {k: _wire(nd[k], nodes, wfin) for k in ("a", "b") if k in nd}
+        split_vals = {k: _wire(v, nodes, wfin) for k, v in nd.get("split_vals", {}).items()}
+        for k, v in plain.items():
+            if k not in split_vals:
+                setattr(t, k, v)
+        if "split" in nd:
+            t = t.split(from_json(nd["split"]), **split_vals)
+        if "combine" in nd:
+            t = t.combine(nd["combine"])
+        out = workflow.add(t, name=name)
+        if "wf" in nd:
+            class _O:  # uniform `.out`
+                pass
+            o = _O()
+            o.out = out.o0
+            out = o
+        nodes[name] = out
+    outs = [nodes[n].out for n in sp.get("outs", [])]
+    outs += [None] * (NOUT - len(outs))
+    return tuple(outs)
